@@ -388,14 +388,11 @@ class ForbiddenRng:
 
 def _clear_repo_caches():
     from gym_gridverse.envs import reward_functions as _RF
-    from gym_gridverse.utils import raytracing as _RT
     # (the ray caches are keyed by the concrete view area and anchor only -- harnesses never pass proxies there --
     #  and recomputing ray fans on every path would dominate the run time)
-    for f in (_RF.dijkstra,):
-        try:
-            f.cache_clear()
-        except AttributeError:
-            pass
+    f = getattr(_RF, 'dijkstra', None)
+    if f is not None and hasattr(f, 'cache_clear'):
+        f.cache_clear()
 
 
 from . import symx as _symx  # noqa: E402
